@@ -742,7 +742,7 @@ struct Tr {
               h += et + "* s, unsigned long nb) { unsigned long n = nb / sizeof(" + et +
                    "); __CPROVER_assert(n <= LL2C_MEMCAP, \"mem* length bound\"); ";
               if (id == Intrinsic::memmove)
-                h += "if ((unsigned long)d <= (unsigned long)s) { for (unsigned long i = 0; i < n && i < LL2C_MEMCAP; i++) d[i] = s[i]; } "
+                h += "if (LL2C_PLE(d, s)) { for (unsigned long i = 0; i < n && i < LL2C_MEMCAP; i++) d[i] = s[i]; } "
                      "else { for (unsigned long i = (n < LL2C_MEMCAP ? n : LL2C_MEMCAP); i > 0; i--) d[i - 1] = s[i - 1]; } }\n";
               else
                 h += "for (unsigned long i = 0; i < n && i < LL2C_MEMCAP; i++) d[i] = s[i]; }\n";
@@ -1211,7 +1211,8 @@ struct Tr {
     O << "#ifdef __CPROVER__\nstatic void ll2c_trap(void) { __CPROVER_assert(0, \"llvm.trap reached\"); __CPROVER_assume(0); }\n"
          "static void ll2c_unreachable(void) { __CPROVER_assert(0, \"llvm unreachable reached\"); __CPROVER_assume(0); }\n#endif\n";
     O << "#ifdef __CPROVER__\n#define LL2C_PDIFF(a, b) (__CPROVER_same_object((a), (b)) ? (unsigned long)(__CPROVER_POINTER_OFFSET(a) - __CPROVER_POINTER_OFFSET(b)) "
-         ": (unsigned long)(a) - (unsigned long)(b))\n#else\n#define LL2C_PDIFF(a, b) ((unsigned long)(a) - (unsigned long)(b))\n#endif\n";
+         ": (unsigned long)(a) - (unsigned long)(b))\n#define LL2C_PLE(a, b) (!__CPROVER_same_object((a), (b)) || __CPROVER_POINTER_OFFSET(a) <= __CPROVER_POINTER_OFFSET(b))\n"
+         "#else\n#define LL2C_PDIFF(a, b) ((unsigned long)(a) - (unsigned long)(b))\n#define LL2C_PLE(a, b) ((unsigned long)(a) <= (unsigned long)(b))\n#endif\n";
     O << "static void ll2c_witness(void)\n{\n#ifdef LL2C_WITNESS\n  __CPROVER_assert(0, \"witness reachable\");\n#endif\n}\n";
     O << "#ifndef LL2C_CAP\n#define LL2C_CAP 8UL\n#endif\n";
     O << "static inline unsigned long ll2c_cap(unsigned long n) { __CPROVER_assert(n <= LL2C_CAP, \"allocation capacity bound\"); return LL2C_CAP; }\n";
